@@ -1,4 +1,5 @@
 import ScyllaVerif.Model.MetaUpdate
+import ScyllaVerif.Model.C19PoolInit
 /-
 Model of what the cluster worker does with a `MetadataUpdate` it received from the merge channel (C19: "the published
 state reflects the latest fetched topology"; nothing merged in by the producer is discarded by the consumer).
@@ -68,6 +69,19 @@ def consume (c : Consumer) (u : Update) : Consumer :=
   | some (.part { peers := some p, .. }) =>
     { c2 with hintsApplied := c2.hintsApplied ++ ups, published := p, publications := c2.publications + 1 }
   | _ => { c2 with hintsApplied := c2.hintsApplied ++ ups }
+
+/-- `wait_until_all_pools_are_initialized` (cluster/state.rs:94-98, awaited at cluster/worker.rs:466-468 BEFORE the new
+state is published and the reply channels are answered): the handler goes on only when no pool of the new state's nodes
+is `Initializing` any more. -/
+def poolsInitialized (pools : List C19PoolInit.Pool) : Bool :=
+  pools.all (fun p => p.shared != .initializing)
+
+/-- `apply_metadata_update` with the pools of the new state's enabled nodes: `none` = still parked at
+`wait_until_all_pools_are_initialized` (nothing published, nothing answered, `recv` not called again). -/
+def consumeWaiting (c : Consumer) (u : Update) (pools : List C19PoolInit.Pool) : Option Consumer :=
+  match peersTag (some u) with
+  | some _ => if poolsInitialized pools then some (consume c u) else none
+  | none => some (consume c u)          -- nothing to publish: the pools are not waited for
 
 /-- Producer → slot → consumer. -/
 structure Pipe where
